@@ -1,6 +1,6 @@
 """C03 -- written images are structurally valid ISO9660 for an independent reader.  DESIGN.md section 8.3."""
 from harness import common, sysimg, sysprops
-from harness.props import packleaf, ptableleaf
+from harness.props import packleaf, ptableleaf, masterleaf
 
 MODULE = 'C03'
 THEOREMS_BASE = ['C03_records_inside_blocks', 'C03_written_where_cached', 'C03_writer_test_is_decisive', 'C03_restart_sound', 'C03_dir_length_inv', 'C03_insert_le1', 'C03_remove_le0', 'C03_ptr_extents_inv', 'C03_nonvacuous',
@@ -36,6 +36,7 @@ def run(ctx):
                             build_kwargs={'schedule': {k: ['write'] for k in ks}})
     packleaf.flush_image_cases(ctx)
     ptableleaf.flush(ctx)
+    masterleaf.correspondence(ctx)
     ctx.cov['rule'] = ('images of random edit histories over a pairwise-covering configuration set plus boundary recipes '
                        '(directory block filled exactly / one record short / one over, path table crossing 4096 bytes with a '
                        'duplicate PVD created before or after, 228-byte records with removals, trees deeper than 8); every image '
